@@ -267,7 +267,7 @@ def run(res, tier, seed, replay):
                               {"module": "corpus/" + mod, "flags": gflags, "go_flags": pkgflags})
                 continue
             nruns += diff_runs(tag, pb, gb, RUN_ARGS if mod == "mod1" else [[]], {"module": "corpus/" + mod, "flags": gflags, "go_flags": pkgflags})
-    for gflags in (cfgs if tier != "quick" else []):
+    for gflags in (cfgs if tier != "quick" else cfgs[:1]):
         if True:
             # garble run / garble test on mod1
             pdir = vlib.sub("c01-mod1")
